@@ -1,7 +1,7 @@
 (* Pinned statements of the C03 theorems (generated once by bin/genpins, then committed):
    fails to compile if Props/C03.v is weakened, renamed or given other hypotheses. *)
 From Coq Require Import SpecFloat.
-Require Import Base Value Float PrintOptions ParseOptions Reader Scan Num Parser DepthProofs DepthBoundProofs FuelProofs FloatFuel SourcesAgree.
+Require Import Base Value Float PrintOptions ParseOptions Reader Scan Num Parser DepthProofs DepthBoundProofs FuelProofs FloatFuel SourcesAgree RejectProofs.
 Require Import Lexpr.Props.C03.
 
 Check (C03_budget_restored :
@@ -57,6 +57,18 @@ Check (C03_depth_every_call :
 Check (C03_depth_bounded :
   forall ro alpha fast std_parse k inp v,
   from_trait ro alpha fast std_parse k inp = POk v -> (vdepth v <= 127)%nat).
+
+Check (C03_reject_code :
+  forall ro alpha fast std_parse k (ops : list opener) (rest : bytes), (128 <= length ops)%nat ->
+  exists l c, from_trait ro alpha fast std_parse k (bytes_events (otexts ops ++ rest)) =
+              PErr (XErr (ESyntax RecursionLimitExceeded l c))).
+
+Check (C03_reject_code_every_call :
+  forall ro alpha fast std_parse (ops : list opener) fuel r (rest : bytes),
+  ops <> [] -> N.of_nat (length ops) <= 128 ->
+  (2 * length ops + length (otexts ops ++ rest) + 3 <= fuel)%nat -> ReaderProofs.at_bytes r (otexts ops ++ rest) ->
+  exists l c s', next_value ro alpha fast std_parse fuel (mk r (N.of_nat (length ops))) =
+                   (PErr (XErr (ESyntax RecursionLimitExceeded l c)), s') /\ depth s' = N.of_nat (length ops)).
 
 Check (C03_limit_witness :
   forallb (fun k =>
